@@ -344,6 +344,14 @@ pub fn base_texts(rng: &mut Rng) -> Vec<Base> {
         e.content = "\u{1d11e}\u{e9}\u{2020}\\\"".into();
         e.tags = vec![vec![], vec![String::new()], vec!["expiration".into(), "1712693529".into()], vec!["\u{1f600}".into()]];
         v.push(Base { entry: Entry::EventJson, text: render_event(&e, &EvRender::plain(), rng).0 });
+        // literals and numbers of every kind in unknown members, first, in the middle and last
+        let mut r = EvRender::plain();
+        r.unknown = vec![
+            Unknown { pos: 0, key_text: b"\"t\"".to_vec(), val_text: b"true".to_vec() },
+            Unknown { pos: 3, key_text: b"\"f\"".to_vec(), val_text: b"[false,null,-0.5e+10,1E2,{\"k\":true}]".to_vec() },
+            Unknown { pos: 7, key_text: b"\"n\"".to_vec(), val_text: b"null".to_vec() },
+        ];
+        v.push(Base { entry: Entry::EventJson, text: render_event(&e1, &r, rng).0 });
     }
     for t in [
         r##"{}"##,
@@ -351,6 +359,11 @@ pub fn base_texts(rng: &mut Rng) -> Vec<Base> {
         r##"{"#e":["a","b\"c","é"],"#p":[],"search":"x","limit":0}"##,
         r##"{"kinds": [3], "#p": ["a9663055164ab8b30d9524656370c4bf93393bb051b7edf4556f40c5298dc0c7"]}"##,
         r##" { "until" : 5 , "since" : 6 , "#t" : [ "x" , "y" ] , "unknown" : { "a" : [ 1 , 2 ] } } "##,
+        // unknown members holding every kind of literal and number (their prefixes end inside `true`, `false`, `null`,
+        // an exponent, ...), also as the very last member
+        r##"{"a":true,"b":false,"c":null,"kinds":[1],"d":-1.5e+3,"e":[true,false,null,0.0,1E-2],"f":{"g":true},"h":true}"##,
+        r##"{"z":null}"##,
+        r##"{"z":false}"##,
     ] {
         v.push(Base { entry: Entry::FilterJson, text: t.as_bytes().to_vec() });
     }
@@ -675,6 +688,21 @@ pub fn run(args: &Args) -> Report {
             call(&mut rep, &w, Entry::FilterJson, &t, 40 + n * 3);
             rep.count("sweep:many-tag-members");
         }
+    }
+    // ... and every single letter repeated 2, 33, 53 and 60 times (duplicate members are outside the domain of the
+    // faithfulness properties, but no input may panic or overrun the per-letter bookkeeping)
+    for (li, c) in ('a'..='z').chain('A'..='Z').enumerate() {
+        if !mine(&mut caseno) {
+            continue;
+        }
+        for n in [2usize, 33, 53, 60] {
+            let members: Vec<String> = (0..n).map(|i| format!("\"#{c}\":[\"v{i}\"]")).collect();
+            let t = format!("{{{}}}", members.join(",")).into_bytes();
+            w.set_case(replay_of(Entry::FilterJson, &t, 8192));
+            call(&mut rep, &w, Entry::FilterJson, &t, 8192);
+        }
+        let _ = li;
+        rep.count("sweep:one-letter-repeated");
     }
     // very long id / author / kind lists (count fields are 16 bit)
     if mine(&mut caseno) {
